@@ -1,0 +1,15 @@
+//go:build verif
+
+package store
+
+// VerifYield, when set, is called at the tagged points of the store's
+// database code with the name of the point. The verification harness uses it
+// to decide the interleaving of concurrent handlers. It only exists in builds
+// with the "verif" tag; regular builds compile the calls away.
+var VerifYield func(site string)
+
+func verifYield(site string) {
+	if f := VerifYield; f != nil {
+		f(site)
+	}
+}
